@@ -813,6 +813,22 @@ class SymPath:
     def is_absolute(self):
         return self.absolute
 
+    # file-system questions are answered by a hook the obligation installs (environment stub)
+    fs_hook = None
+
+    def is_file(self):
+        if SymPath.fs_hook is None:
+            raise HarnessError('is_file() on a symbolic path without a file-system stub')
+        return SymPath.fs_hook('is_file', self)
+
+    def is_dir(self):
+        if SymPath.fs_hook is None:
+            raise HarnessError('is_dir() on a symbolic path without a file-system stub')
+        return SymPath.fs_hook('is_dir', self)
+
+    def absolute(self):     # shadowed by the instance attribute; kept for documentation
+        return self
+
     def absolute_(self):
         return self
 
